@@ -15,6 +15,7 @@ import (
 	"go.sia.tech/core/types"
 	"go.sia.tech/hostd/v2/host/registry"
 	"go.sia.tech/hostd/v2/host/settings"
+	"go.sia.tech/hostd/v2/index"
 	"go.sia.tech/hostd/v2/persist/sqlite"
 	"go.uber.org/zap"
 )
@@ -199,7 +200,7 @@ func TestVerifC20(t *testing.T) {
 				tie = rhp3.ValidateRegistryUpdate(rhp3.RegistryEntry{RegistryKey: key, RegistryValue: old}, e, hostID) == nil
 			}
 			cntBefore, limBefore, _ := reg.Entries()
-			ret, err := reg.Put(e, 100)
+			ret, err := reg.Put(e, uint64(90+rng.Intn(40))) // expiration heights around the tips of `tip` below
 			if err == nil && !hasOld && cntBefore >= limBefore {
 				em.Monitor("insert-accepted-without-room", fmt.Sprintf("new key %d accepted with count %d >= limit %d", k, cntBefore, limBefore))
 			}
@@ -284,6 +285,19 @@ func TestVerifC20(t *testing.T) {
 			em.Count("op:RacePut")
 		}
 
+		// the store's processed chain tip moves (below, at and beyond the entries' expiration heights):
+		// no entry is dropped, hidden or uncounted by that
+		tip := func(h uint64) {
+			err := db.UpdateChainState(func(tx index.UpdateTx) error {
+				return tx.SetLastIndex(types.ChainIndex{Height: h, ID: types.BlockID{byte(h), 1}})
+			})
+			if err != nil {
+				t.Fatal(err)
+			}
+			em.Step(fmt.Sprintf("Tip %d", h), "ODone")
+			em.Count("op:Tip")
+		}
+
 		if id == 0 {
 			// directed corpus case: the capacity witness of c20_capacity_refuted
 			setLimit(2)
@@ -356,6 +370,12 @@ func TestVerifC20(t *testing.T) {
 					get(rng.Intn(4))
 				case r < 18:
 					setLimit(uint64(rng.Intn(5)))
+					info()
+				case r < 19:
+					tip(uint64(80 + rng.Intn(70)))
+					for k := 0; k < 4; k++ {
+						get(k)
+					}
 					info()
 				default:
 					em.Count("op:Info")
